@@ -137,7 +137,7 @@ func codecOracleTot(c fw.Case) *fw.OracleFailure {
 	where := fmt.Sprintf("%s ctx=%s body=%s", e.name, ctx.s, trunc(fw.Hex(body), 160))
 
 	a := codecRunOne(e, ctx, fw.Exact(body), nil, true)             // fresh, exact capacity
-	b := codecRunOne(e, ctx, fw.Spare(body, 64, 0x00), nil, false) // fresh, 64 spare bytes of 0x00
+	b := codecRunOne(e, ctx, fw.Spare(body, 64, 0x00), nil, false)  // fresh, 64 spare bytes of 0x00
 	cc := codecRunOne(e, ctx, fw.Spare(body, 64, 0xFF), nil, false) // fresh, 64 spare bytes of 0xFF
 	runs := []codecRun{a, b, cc}
 	names := []string{"exact", "spare00", "spareFF"}
